@@ -10,8 +10,9 @@ import (
 // properties are about are exercised in every run, whatever the random generators produce).
 
 type scenario struct {
-	name string
-	run  func(w *world, j *judge)
+	name    string
+	run     func(w *world, j *judge)
+	noSpace []string
 }
 
 func expect(j *judge, ok bool, key, format string, a ...any) {
@@ -32,7 +33,7 @@ var scenarios = []scenario{
 		w.delete("p1", "o1")
 		o := w.roundApply(j, "p1")
 		expect(j, len(o.Missing) == 0, "round/deleted-id-requested/missing", "o1 was deleted at p1 before applyDiff, SyncAll missing = %v", o.Missing)
-	}},
+	}, nil},
 	{"late-notification-after-tombstone", func(w *world, j *judge) {
 		// the notification of a change is still queued when the deletion arrives
 		w.create("p1", "o1")
@@ -43,7 +44,7 @@ var scenarios = []scenario{
 		w.indexApply(j, "p1") // the status change
 		w.deleteFinish("p1", "o1")
 		w.drain(j)
-	}},
+	}, nil},
 	{"tombstoned-peer-is-not-asked-again", func(w *world, j *judge) {
 		// both hold o1, p1 deletes it: p1's round sees it as new and must not request it; p2's round pushes it, nothing happens
 		w.create("p1", "o1")
@@ -59,7 +60,7 @@ var scenarios = []scenario{
 		v, _ := w.nodes["p1"].index()
 		_, in := v["o1"]
 		expect(j, !in, "index/tombstoned-id-indexed/round", "o1 is deleted at p1 but back in its index after the rounds")
-	}},
+	}, nil},
 	{"offline-between-check-and-diff", func(w *world, j *judge) {
 		w.create("p2", "o1")
 		w.edit("p2", "o1", "c1")
@@ -70,13 +71,13 @@ var scenarios = []scenario{
 		res, _ := w.roundDiff(j, "p1")
 		expect(j, res == "fail", "round/offline-peer-synced/diff", "diff against an offline peer ended with %q", res)
 		w.flip("p2")
-	}},
+	}, nil},
 	{"restart-with-queued-notifications", func(w *world, j *judge) {
 		w.create("p1", "o1")
 		w.edit("p1", "o1", "c1")
 		w.edit("p1", "o1", "c2")
 		w.restart(j, "p1") // the queue is lost, FillDiff must see the stored heads
-	}},
+	}, nil},
 	{"equal-indexes-one-request", func(w *world, j *judge) {
 		for _, p := range []string{"p1", "p2"} {
 			w.create(p, "o1")
@@ -90,7 +91,7 @@ var scenarios = []scenario{
 		if res == "equal" {
 			w.roundApply(j, "p1")
 		}
-	}},
+	}, nil},
 	{"acl-and-kv-routed", func(w *world, j *judge) {
 		w.edit("p1", "acl", "c1")
 		w.edit("p2", "kv", "c1")
@@ -102,7 +103,7 @@ var scenarios = []scenario{
 		w.roundDiff(j, "p1")
 		o := w.roundApply(j, "p1")
 		expect(j, o.Acl && o.Kv, "round/difference-not-handed-over/acl", "acl and key-value heads differ, acl sync %v kv sync %v", o.Acl, o.Kv)
-	}},
+	}, nil},
 	{"edit-during-round-is-synced-by-next-round", func(w *world, j *judge) {
 		// NoLostUpdate: the change is made (and its notification queued) while the round is parked after the diff
 		w.create("p1", "o1")
@@ -119,7 +120,45 @@ var scenarios = []scenario{
 		w.runTasks(j)
 		ok, bad := w.converged("p1", "p2")
 		expect(j, ok, "converge/edit-during-round-lost", "a change made during a round is not synced by the next round: %s", bad)
-	}},
+	}, nil},
+	{"change-while-the-space-is-opened", func(w *world, j *judge) {
+		w.create("p1", "o1")
+		w.edit("p1", "o1", "c1")
+		w.drain(j)
+		w.restartEdit(j, "p1", "o1", "c2")
+		w.drain(j)
+	}, nil},
+	{"space-missing-push-then-upload", func(w *world, j *judge) {
+		// p2 does not hold the space: the round pushes it and uploads the trees in the same round
+		w.create("p1", "o1")
+		w.edit("p1", "o1", "c1")
+		w.edit("p1", "acl", "c1")
+		w.drain(j)
+		w.roundBegin("p1")
+		res := w.roundCheck(j, "p1")
+		expect(j, res == "missing", "round/space-missing-not-pushed", "type check against a peer without the space ended with %q", res)
+		if res != "missing" {
+			return
+		}
+		w.roundPush(j, "p1")
+		if j.stop {
+			return
+		}
+		w.roundCheck(j, "p1")
+		w.roundDiff(j, "p1")
+		o := w.roundApply(j, "p1")
+		expect(j, contains(o.Existing, "o1") && o.Acl, "round/difference-not-handed-over/existing", "after the push the trees must be uploaded in the same round: existing %v acl %v", o.Existing, o.Acl)
+	}, []string{"p2"}},
+	{"push-to-peer-that-goes-offline", func(w *world, j *judge) {
+		w.create("p1", "o1")
+		w.edit("p1", "o1", "c1")
+		w.drain(j)
+		w.roundBegin("p1")
+		w.roundCheck(j, "p1")
+		w.flip("p2")
+		w.roundPush(j, "p1")
+		w.flip("p2")
+	}, []string{"p2"}},
 }
 
 func runScenarios(rep *vfutil.Report, only string) {
@@ -128,7 +167,7 @@ func runScenarios(rep *vfutil.Report, only string) {
 			continue
 		}
 		j := &judge{rep: rep, replay: map[string]any{"kind": "scenario", "scenario": sc.name}, tag: "scenario/" + sc.name}
-		w := newWorld([]string{"p1", "p2"}, peerSeqAll([]string{"p1", "p2"}), "acl", "kv")
+		w := newWorld([]string{"p1", "p2"}, peerSeqAll([]string{"p1", "p2"}), "acl", "kv", sc.noSpace...)
 		func() {
 			defer w.close()
 			sc.run(w, j)
